@@ -20,10 +20,14 @@ struct Rec
 	int d = 0;
 	long long calls = 0;
 	std::vector<double> mn, mx, first;
+	long long badsize = 0;	  // callbacks whose argument vector did not have exactly d entries
+	size_t maxsize	  = 0;
 	void init(int dim)
 	{
-		d = dim;
-		calls = 0;
+		d		= dim;
+		calls	= 0;
+		badsize = 0;
+		maxsize = 0;
 		mn.assign(dim, INFINITY);
 		mx.assign(dim, -INFINITY);
 		first.clear();
@@ -41,10 +45,31 @@ struct Rec
 		}
 		calls++;
 	}
+	void see(const std::vector<double>& x)
+	{
+		if(x.size() != (size_t) d)
+			badsize++;
+		if(x.size() > maxsize)
+			maxsize = x.size();
+		if(x.size() >= (size_t) d)
+			see(x.data());
+		else
+			calls++;
+	}
+	// every recorded point inside the (possibly reversed) limits lo[i], hi[i]
+	bool inside(const std::vector<double>& lo, const std::vector<double>& hi) const
+	{
+		if(calls == 0)
+			return true;
+		for(int i = 0; i < d; i++)
+			if(!(mn[i] >= std::min(lo[i], hi[i]) && mx[i] <= std::max(lo[i], hi[i])))
+				return false;
+		return true;
+	}
 };
 
 // integrand families; p = parameters (per family)
-static double fam(int fid, int d, const double* x, const std::vector<double>& p)
+static double fam(int fid, int d, const double* x, const std::vector<double>& p, size_t n = 0)
 {
 	double s = 0.0;
 	switch(fid)
@@ -55,6 +80,7 @@ static double fam(int fid, int d, const double* x, const std::vector<double>& p)
 		case 3: for(int i = 0; i < d; i++) s += p[i] * x[i]; return std::exp(-s);   // separable exponential
 		case 4: for(int i = 0; i < d; i++) s += (x[i] - p[i]) * (x[i] - p[i]); return std::exp(-0.5 * s / (p[d] * p[d]));	// off-centre Gaussian
 		case 5: for(int i = 0; i < d; i++) s += x[i] * x[i]; return s + 1.0;		   // polynomial
+		case 6: for(size_t i = 0; i < (n ? n : (size_t) d); i++) s += x[i]; return s;   // sum over the WHOLE argument vector (all x.size() entries)
 	}
 	return 0.0;
 }
@@ -90,8 +116,8 @@ static double do_call(const Call& c, Rec& rec)
 	rec.init(c.d);
 	g_seed = c.seed;
 	std::function<double(std::vector<double>&, const double)> f = [&](std::vector<double>& x, const double) {
-		rec.see(x.data());
-		return fam(c.fid, c.d, x.data(), c.p);
+		rec.see(x);
+		return fam(c.fid, c.d, x.data(), c.p, x.size());
 	};
 	std::vector<double> region = c.region;
 	return Integrate_MC(f, region, c.ncalls, c.method);
@@ -108,14 +134,14 @@ static void do_call_abandoned(const Call& c, long long k, const std::function<vo
 	rec.init(c.d);
 	g_seed = c.seed;
 	std::function<double(std::vector<double>&, const double)> f = [&](std::vector<double>& x, const double) {
-		rec.see(x.data());
+		rec.see(x);
 		if(rec.calls >= k)
 		{
 			if(at_k)
 				at_k();
 			throw Abandon();
 		}
-		return fam(c.fid, c.d, x.data(), c.p);
+		return fam(c.fid, c.d, x.data(), c.p, x.size());
 	};
 	std::vector<double> region = c.region;
 	try
@@ -127,8 +153,46 @@ static void do_call_abandoned(const Call& c, long long k, const std::function<vo
 	}
 }
 
+// record of one observed run in the history ops: value, evaluations, all points inside the region, argument sizes all == d
+static void emit_run(Out& o, double v, const Rec& r, const Call& c)
+{
+	std::vector<double> lo(c.region.begin(), c.region.begin() + c.d), hi(c.region.begin() + c.d, c.region.end());
+	o << v << r.calls << (int) r.inside(lo, hi) << r.badsize;
+}
+
 std::string handle(const std::string& op, Args& a)
 {
+	if(op == "c14.outer")
+	{
+		// STATISTIC, not a property clause: an outer call whose integrand runs another complete integration at its k-th
+		// evaluation, against the same outer call alone:   <outer call> <k> <inner call>
+		Call outer = parse_call(a);
+		long long k = a.i64();
+		Call inner = parse_call(a);
+		a.end();
+		std::string alone = run_forked([&](Out& o) { Rec r; double v = do_call(outer, r); o << v << r.calls; });
+		std::string with  = run_forked([&](Out& o) {
+			 Rec rec, r2;
+			 rec.init(outer.d);
+			 g_seed = outer.seed;
+			 std::function<double(std::vector<double>&, const double)> f = [&](std::vector<double>& x, const double) {
+				 rec.see(x);
+				 if(rec.calls == k)
+				 {
+					 std::vector<double> keep = x;
+					 do_call(inner, r2);
+					 return fam(outer.fid, outer.d, keep.data(), outer.p, keep.size());
+				 }
+				 return fam(outer.fid, outer.d, x.data(), outer.p, x.size());
+			 };
+			 std::vector<double> region = outer.region;
+			 double v					= Integrate_MC(f, region, outer.ncalls, outer.method);
+			 o << v << rec.calls;
+		 });
+		if(alone.substr(0, 2) != "ok" || with.substr(0, 2) != "ok")
+			return "ok nan 0 nan 0";   // a statistic: never a failure
+		return "ok" + alone.substr(2) + with.substr(2);
+	}
 	if(op == "c14.histx")
 	{
 		// class D with histories that contain ABANDONED integrations (integrand throws, caller catches) and with the
@@ -165,7 +229,7 @@ std::string handle(const std::string& op, Args& a)
 		else if(fin != "T")
 			throw BadArgs("final mode");
 		a.end();
-		std::string fresh = run_forked([&](Out& o) { Rec r; double v = do_call(c, r); o << v << r.calls; });
+		std::string fresh = run_forked([&](Out& o) { Rec r; double v = do_call(c, r); emit_run(o, v, r, c); });
 		std::string after = run_forked([&](Out& o) {
 			Rec r;
 			for(auto& h : hist)
@@ -191,7 +255,7 @@ std::string handle(const std::string& op, Args& a)
 					ran = true;
 				}
 			}
-			o << v << r.calls;
+			emit_run(o, v, r, c);
 		});
 		if(fresh.substr(0, 2) != "ok")
 			return fresh;
@@ -210,6 +274,7 @@ std::string handle(const std::string& op, Args& a)
 			o << v << r.calls;
 			o << r.mn << r.mx;
 			o << (long long) r.first.size() << r.first;
+			o << "sz" << r.badsize << (long long) r.maxsize;
 		});
 	}
 	if(op == "c14.hist")
@@ -221,12 +286,13 @@ std::string handle(const std::string& op, Args& a)
 		for(size_t i = 0; i < nh; i++)
 			hist.push_back(parse_call(a));
 		a.end();
-		std::string fresh = run_forked([&](Out& o) { Rec r; o << do_call(c, r) << r.calls; });
+		std::string fresh = run_forked([&](Out& o) { Rec r; double v = do_call(c, r); emit_run(o, v, r, c); });
 		std::string after = run_forked([&](Out& o) {
 			Rec r;
 			for(auto& h : hist)
 				do_call(h, r);
-			o << do_call(c, r) << r.calls;
+			double v = do_call(c, r);
+			emit_run(o, v, r, c);
 		});
 		if(fresh.substr(0, 2) != "ok")
 			return fresh;
@@ -275,6 +341,32 @@ std::string handle(const std::string& op, Args& a)
 			o << v << r.calls << r.mn << r.mx;
 		});
 	}
+	if(op == "c14.front3v")
+	{
+		// Integrate_3D(std::function<double(Vector)>, r1, r2, cos1, cos2, phi1, phi2, method, n): spherical coordinates;
+		// integrand kinds: 0 constant p[0], 1 |v|^2, 2 v_z
+		std::string method = a.tok();
+		unsigned seed	   = (unsigned) a.u64();
+		std::vector<double> lim;
+		for(int i = 0; i < 6; i++)
+			lim.push_back(a.dbl());
+		int n	= (int) a.i64();
+		int fid = (int) a.i64();
+		auto p	= a.dbls();
+		a.end();
+		return run_forked([&](Out& o) {
+			Rec r;
+			r.init(3);	 // recorded as (|v|, cos(theta), phi)
+			g_seed	 = seed;
+			double v = Integrate_3D([&](Vector vec) {
+				double rr	 = vec.Norm();
+				double xx[3] = {rr, rr > 0 ? vec[2] / rr : 0.0, std::atan2(vec[1], vec[0])};
+				r.see(xx);
+				return fid == 0 ? p[0] : (fid == 1 ? rr * rr : vec[2]);
+			}, lim[0], lim[1], lim[2], lim[3], lim[4], lim[5], method, n);
+			o << v << r.calls << r.mn << r.mx;
+		});
+	}
 	if(op == "c14.fhist2" || op == "c14.fhist3")
 	{
 		// class D through the front ends: target call after earlier calls on the IDENTICAL limits and method (other
@@ -312,13 +404,19 @@ std::string handle(const std::string& op, Args& a)
 				return Integrate_2D([&](double x, double y) { double xx[2] = {x, y}; r.see(xx); return fam(f.fid, 2, xx, f.p); }, lim[0], lim[1], lim[2], lim[3], method, f.n);
 			return Integrate_3D([&](double x, double y, double z) { double xx[3] = {x, y, z}; r.see(xx); return fam(f.fid, 3, xx, f.p); }, lim[0], lim[1], lim[2], lim[3], lim[4], lim[5], method, f.n);
 		};
-		std::string fresh = run_forked([&](Out& o) { Rec r; double v = front(tgt, r); o << v << r.calls; });
+		std::vector<double> flo, fhi;
+		for(int i = 0; i < d; i++)
+		{
+			flo.push_back(lim[2 * i]);
+			fhi.push_back(lim[2 * i + 1]);
+		}
+		std::string fresh = run_forked([&](Out& o) { Rec r; double v = front(tgt, r); o << v << r.calls << (int) r.inside(flo, fhi) << 0; });
 		std::string after = run_forked([&](Out& o) {
 			Rec r;
 			for(auto& h : hist)
 				front(h, r);
 			double v = front(tgt, r);
-			o << v << r.calls;
+			o << v << r.calls << (int) r.inside(flo, fhi) << 0;
 		});
 		if(fresh.substr(0, 2) != "ok")
 			return fresh;
